@@ -20,6 +20,7 @@ type Solver struct {
 	Unsat   int
 	Sat     int
 	Unknown int
+	Retries int
 	Time    time.Duration
 	Log     io.Writer
 	depth   int
@@ -77,6 +78,17 @@ func (s *Solver) Assert(t *Term) { s.send("(assert " + t.String() + ")") }
 
 // Check returns "sat", "unsat" or "unknown" (timeouts, errors and anything else are unknown).
 func (s *Solver) Check() string {
+	// a per-query time limit can be hit spuriously when the machine is overloaded: an "unknown"
+	// is retried twice before it counts (an "(error" answer never is)
+	r := s.check1()
+	for i := 0; i < 2 && r == "unknown"; i++ {
+		s.Retries++
+		r = s.check1()
+	}
+	return r
+}
+
+func (s *Solver) check1() string {
 	t0 := time.Now()
 	s.send("(check-sat)")
 	line, err := s.out.ReadString('\n')
